@@ -14,6 +14,7 @@ func init() {
 	gens["C11cal"] = genC11Cal
 	observers["C11.part"] = obsC11Part
 	observers["C11.align"] = obsC11Align
+	observers["C11.seq"] = obsC11Seq
 	observers["C11.cal"] = obsC11Cal
 }
 
@@ -57,6 +58,19 @@ func obsC11Part(in string) (res string) {
 		sb.WriteString(fd(sd[i]) + ".." + fd(ed[i]))
 	}
 	return sb.String()
+}
+
+// input "<s> <e> <iv> <last1,last2,...>": a history of NewPartition calls on one window with different
+// `last` values, made one after the other in this process (the result of a call must not depend on
+// earlier calls: accrual expansion and the report both ask for partitions in one knut run; seeded
+// change C11-partition-cache-ignores-last).  observed: the results joined by " / "
+func obsC11Seq(in string) string {
+	f := strings.Fields(in)
+	var out []string
+	for _, l := range strings.Split(f[3], ",") {
+		out = append(out, obsC11Part(fmt.Sprintf("%s %s %s %s", f[0], f[1], f[2], l)))
+	}
+	return strings.Join(out, " / ")
 }
 
 // input "<s> <e> <iv> <last> <d1,d2,..>": Align of each probe ("-" for the zero time);
@@ -175,6 +189,12 @@ func genC11(out *caseWriter, seed uint64, n int, _ []string) error {
 		res := out.add(id+".p", "C11.part", in)
 		if res != "PANIC" {
 			out.add(id+".a", "C11.align", in+" "+c11Probes(r, s, e, res))
+		}
+		if i%5 == 0 {
+			// the same window asked for again with other values of `last`, in both directions
+			ls := []string{"0", "2", "1", "0", "100", "3"}
+			r.shuffle(len(ls), func(a, b int) { ls[a], ls[b] = ls[b], ls[a] })
+			out.add(id+".s", "C11.seq", fmt.Sprintf("%s %s %s %s", fd(s), fd(e), iv, strings.Join(ls, ",")))
 		}
 	}
 	return nil
